@@ -199,6 +199,38 @@ def dp_optimum(elems, table):
     return best[full]
 
 
+def components(universe, table):
+    """strongly connected components of the graph of elements (arc x->y unless 'x after y' is a cheapest
+    placement), as a list of sets (no particular order) — reference, by plain reachability."""
+    adj = {x: [y for y in universe if y != x and (table[(x, y)][1] > table[(x, y)][0] or table[(x, y)][1] > table[(x, y)][2])]
+           for x in universe}
+    reach = {}
+    for x in universe:
+        seen, todo = {x}, [x]
+        while todo:
+            y = todo.pop()
+            for z in adj[y]:
+                if z not in seen:
+                    seen.add(z)
+                    todo.append(z)
+        reach[x] = seen
+    done, out = set(), []
+    for x in universe:
+        if x not in done:
+            c = {y for y in reach[x] if x in reach[y]}
+            done |= c
+            out.append(c)
+    return out
+
+
+def all_tieable(group, table):
+    return all(table[(x, y)][2] <= min(table[(x, y)][0], table[(x, y)][1]) for x in group for y in group if x < y)
+
+
+def nontrivial_components(universe, table):
+    return [c for c in components(universe, table) if len(c) >= 2 and not all_tieable(c, table)]
+
+
 def respects_partition(order, groups):
     """every element of an earlier group strictly before every element of a later group."""
     pos = bucket_index(order)
